@@ -80,12 +80,20 @@ end QM.Text
 namespace QM.Frag
 open QM.Text QM.Parse
 
+/-- `AccessPath`: `.field` or `.index` behind an access -/
+inductive Acc where
+  | field (name : Str)
+  | index (i : Nat)
+  deriving Repr, Inhabited
+
 mutual
 /-- The fragment: `Term::Access` of a bare identifier, and `Term::Tuple`s — anonymous `[…]`, named
     `A[…]`, or the bare tuple name `A` (no fields) — whose fields are one-term chains of the fragment,
     unnamed or named (`x: t`). -/
 inductive T where
   | leaf (name : Str)
+  /-- `Term::Access` of an identifier with accessors: `name.field.0` (`path` non-empty) -/
+  | acc (name : Str) (path : List Acc)
   /-- `Term::Literal(Literal::Integer(i))` -/
   | int (i : Int)
   /-- `Term::Literal(Literal::Binary(bytes))` -/
@@ -113,6 +121,7 @@ def isPrim : T → Bool
 /-- `is_call_ender`: `Term::Access` (a bare identifier here) -/
 def isIdent : T → Bool
   | .leaf _ => true
+  | .acc _ _ => true
   | _ => false
 
 /-- `is_breakable_container`: a tuple with fields -/
@@ -129,6 +138,10 @@ mutual
 /-- every leaf and field label is an `identifier`, every tuple name a `tuple_name` of the language -/
 def T.WF : T → Prop
   | .leaf n => isIdentStr n = true
+  | .acc n p => isIdentStr n = true ∧ p ≠ [] ∧
+      ∀ a ∈ p, match a with
+        | .field f => isIdentStr f = true
+        | .index i => i < 2 ^ 64
   | .int _ => True
   | .bin bs => ∀ b ∈ bs, b < 256
   | .str _ => True
@@ -146,6 +159,18 @@ def F.WFList : List F → Prop
 end
 
 /-! ### AST → Doc (format.rs) -/
+
+/-- one accessor as `render_access` writes it -/
+def accText : Acc → Str
+  | .field f => '.' :: f
+  | .index i => '.' :: Parse.natDigits i
+
+def pathText : List Acc → Str
+  | [] => []
+  | a :: p => accText a ++ pathText p
+
+/-- `render_access` of an identifier with accessors -/
+def accessText (name : Str) (path : List Acc) : Str := name ++ pathText path
 
 /-- `BigInt::to_string` -/
 def intText (i : Int) : Str := if i < 0 then '-' :: Parse.natDigits i.natAbs else Parse.natDigits i.natAbs
@@ -211,6 +236,7 @@ mutual
 /-- `term_doc` (`render_access` of a bare identifier; `tuple_doc`) -/
 def termDoc : T → Doc
   | .leaf n => .text n
+  | .acc n p => .text (accessText n p)
   | .int i => .text (intText i)
   | .bin bs => .text (binText bs)
   | .str v => .text (strText v)
@@ -357,6 +383,14 @@ def stringP : P T := fun i =>
       | _ => .err i .verify
   | _ => .err i .char
 
+/-- `accessor`: an index (`usize`) or a field name -/
+def accessorP : P Acc := alt (pmap usize Acc.index) (pmap identifier Acc.field)
+
+/-- `access` with an identifier as its source: the identifier, then `many0(preceded('.', accessor))` -/
+def accessP : P T :=
+  bind identifier fun n =>
+    pmap (many0 (seq (pchar '.') accessorP)) fun p => if p.isEmpty then .leaf n else .acc n p
+
 /-- `primary` restricted to the fragment (string | literal | tuple | access of a bare identifier — in the order
     of the Rust `alt`; `decimal_term` / `fraction_term`, tried before `literal`, fail when the digits are
     not followed by `.` / `/`, which `Stop` excludes); the recursion through
@@ -364,7 +398,7 @@ def stringP : P T := fun i =>
     exhausted). -/
 def termP : Nat → P T
   | 0 => fun _ => .out
-  | n + 1 => alt stringP (alt literalP (alt (tupleP (fieldP (chainP (termP n)))) (pmap identifier T.leaf)))
+  | n + 1 => alt stringP (alt literalP (alt (tupleP (fieldP (chainP (termP n)))) accessP))
 
 /-- `eof` -/
 def peof : P Unit := fun i =>
